@@ -32,6 +32,38 @@ from ..interp import Interp, Obj, has_unknown, unknown_atoms, RangeVal
 from ..plf import Rat, Sym, Fn, find_atoms, rpow
 from ..report import AnalysisError
 
+def _read_component(v, i, j, k):
+    """element [i, j, k] of the returned separations: follow setitem(...) layers (stores at [..., k]) and epsilon offsets"""
+    from ..elem import element
+    from ..plf import Fn as _Fn
+    cur = v
+    for _ in range(8):
+        if not isinstance(cur, Rat):
+            return None
+        ts = cur.terms()
+        if ts is None:
+            return None
+        # drop pure epsilon constants added for numerical safety
+        arr = [(c, m) for c, m in ts if m]
+        eps = [c for c, m in ts if not m]
+        if any(abs(complex(c)) > 1e-9 for c in eps):
+            return None
+        if len(arr) != 1 or abs(complex(arr[0][0]) - 1) > 0 or len(arr[0][1]) != 1 or arr[0][1][0][1] != 1:
+            e = element(Rat(dict((m, c) for c, m in arr)), (i, j), {})
+            return e
+        a = arr[0][1][0][0]
+        if isinstance(a, _Fn) and a.name == "setitem":
+            base, idx, val = a.args
+            if isinstance(idx, tuple) and len(idx) == 2 and idx[0] is Ellipsis and isinstance(idx[1], Rat) and idx[1].real_const() is not None:
+                if int(idx[1].real_const()) == k:
+                    return element(val, (i, j), {}) if isinstance(val, Rat) else None
+                cur = base
+                continue
+            return None
+        return element(cur, (i, j), {})
+    return None
+
+
 LEVEL = "other"
 MOD = "aotools.turbulence.slopecovariance"
 PERMUTERS = {"fliplr", "flipud", "flip", "rot90", "roll", "T", "sort", "transpose"}
@@ -172,7 +204,23 @@ def run(rep, tier, root=None):
         rep.check(ok, "stencil.separations", cs.fq + ": s[i, j] = p2[j] - p1[i]",
                   "separation stored at %s is %s" % (nf(st[0][2], 80), nf(st[0][3], 160)), cs.where())
     else:
-        rep.unknown("stencil.separations", cs.fq, "expected a double loop with one store", cs.where())
+        # vectorised form: the value returned is read element-wise at symbolic (i, j, k)
+        from ..elem import element
+        rets_ = [v for c_, v in Is.returns(cs, [Rat.sym("n1", ("int",)), Rat.sym("n2", ("int",)), p1, p2])]
+        i_, j_ = Rat.sym("i", ("int", "loopvar")), Rat.sym("j", ("int", "loopvar"))
+        done = False
+        if len(rets_) == 1 and isinstance(rets_[0], Rat):
+            comps = []
+            for k_ in (0, 1):
+                comps.append(_read_component(rets_[0], i_, j_, k_))
+            if all(c is not None for c in comps):
+                done = True
+                g2 = lambda e, a, k: Rat.atom(Fn("getitem", (e, (a, Rat.const(k)))))
+                ok = all(same_value(comps[k_], g2(p2, j_, k_) - g2(p1, i_, k_)) for k_ in (0, 1))
+                rep.check(ok, "stencil.separations", cs.fq + ": s[i, j] = p2[j] - p1[i]",
+                          "element [i, j] of the separations is (%s, %s)" % (nf(comps[0], 120), nf(comps[1], 120)), cs.where())
+        if not done:
+            rep.unknown("stencil.separations", cs.fq, "expected a double loop with one store, or array expressions readable element-wise", cs.where())
 
     # ---------------------------------------------------------------- r0deg
     D = ix.func(MOD, "structure_function_vk")
@@ -212,6 +260,11 @@ def run(rep, tier, root=None):
     rep.check(len(mcalls) == 1 and norm_text(_stmt(top.node, mcalls[0])).replace(" ", "") ==
               "self.covariance_matrix=mirror_covariance_matrix(self.covariance_matrix)", "lower.mirror",
               top.fq + ": the assembled matrix is mirrored exactly once", "mirror calls: %s" % [norm_text(_stmt(top.node, c)) for c in mcalls], top.where())
+    from ..common import purity_obligations
+    purity_obligations(rep, ix, [ix.func(MOD, n) for n in ("wfs_covariance", "calculate_wfs_seperations", "compute_covariance_xx",
+                                                          "compute_covariance_yy", "compute_covariance_xy", "structure_function_vk",
+                                                          "mirror_covariance_matrix")],
+                       "pure-blocks", "a covariance block would depend on the blocks computed before it")
     rep.floor("C01 obligations", len(rep.obligations), 40)
 
 
